@@ -89,6 +89,20 @@ def plan(i, j):
         e = e + [''] * (j + 1 - len(e))
         e[j] = 'X'
         return e, (j, '10')
+    if FAULT == 'date_format_mismatch':
+        # a date written in a format other than the one its qualifier (the preceding element) announces: D8 with a range, RD8 with a single date
+        if child.usage == 'N' or cur == '' or j < 2 or de['data_type'] != 'AN' or j - 1 >= len(e):
+            return None
+        prev = node.children[j - 2]
+        if prev.is_composite() or prev.data_ele != '1250':
+            return None
+        if e[j - 1] == 'D8' and len(cur) == 8:
+            e[j] = cur + '-' + cur
+        elif e[j - 1] == 'RD8' and len(cur) == 17:
+            e[j] = cur[:8]
+        else:
+            return None
+        return e, (j, '8')
     raise ValueError(FAULT)
 
 
@@ -211,7 +225,7 @@ def _ob(name, fn, tier, timeout, kind='ch', **params):
 
 
 OBLIGATIONS = []
-for f in ('too_long', 'bad_code', 'wrong_class', 'missing_required', 'not_used', 'too_many_elements'):
+for f in ('too_long', 'bad_code', 'wrong_class', 'missing_required', 'not_used', 'too_many_elements', 'date_format_mismatch'):
     OBLIGATIONS.append(_ob('element_%s_ris' % f, 'h_fault', 'quick', 3600, fault=f, doc='repeat_init_segment'))
     OBLIGATIONS.append(_ob('element_%s_834' % f, 'h_fault', 'thorough', 7200, fault=f, doc='834_lui_id'))
     OBLIGATIONS.append(_ob('element_%s_834_5010' % f, 'h_fault', 'thorough', 7200, fault=f, doc='834_lui_id_5010'))
